@@ -537,7 +537,7 @@ func history(c *common.Ctx, cf *common.CaseFile, r *common.Rand, idx int, script
 		case "handoff":
 			// the primary hands its role to the other candidate; a former primary that still holds the halt lock it had
 			// granted is not connected (it waits for that lock before it takes up the replica role) and cannot be the target
-			hctx, cancel := context.WithTimeout(context.Background(), 2*time.Second)
+			hctx, cancel := context.WithTimeout(context.Background(), 6*time.Second)
 			err := g.p.Store.Handoff(hctx, g.o.Store.ID())
 			cancel()
 			if err != nil {
